@@ -94,7 +94,7 @@ type params struct {
 	policy string // eager | lazy | burst
 	stopAt int    // Client.Stop() is issued once this many messages have been handled
 	slow   int    // index of the callback that blocks on the harness gate (-1 none)
-	strict bool   // dedicated stop scenario: a connection error caused by Stop is a finding here
+	strict string // name of a dedicated stop scenario group: errors caused by Stop are findings here
 }
 
 func (p params) name() string {
@@ -102,8 +102,8 @@ func (p params) name() string {
 	if p.slow >= 0 {
 		s += fmt.Sprintf("|slow%d", p.slow)
 	}
-	if p.strict {
-		s = "stopclean|" + s
+	if p.strict != "" {
+		s = p.strict + "|" + s
 	}
 	return s
 }
@@ -542,10 +542,15 @@ func check(p params) func(r *rt.Result) []rt.Finding {
 					if stopCalled {
 						when = "after-stop"
 					}
-					// Stop with requests outstanding unregisters the protocol before the
-					// replies arrive (finding of the dedicated stopclean scenarios); elsewhere
-					// this one consequence is attributed to that finding
-					if stopCalled && !p.strict && strings.Contains(l, "mux (received message for unknown protocol ID") {
+					// Two consequences of Stop() are findings of the dedicated scenarios
+					// (stopclean: the protocol is unregistered before the replies to requests
+					// already sent arrive; stoprace: syncLoop queues a RequestNext after Done and
+					// reports the refusal as a protocol error); elsewhere they are attributed to
+					// those findings so that one root cause does not produce hundreds of keys
+					if stopCalled && p.strict != "stopclean" && strings.Contains(l, "mux (received message for unknown protocol ID") {
+						continue
+					}
+					if stopCalled && p.strict != "stoprace" && strings.Contains(l, "proto (protocol is shutting down)") {
 						continue
 					}
 					add("c21:error-"+when+"|"+errClass(l), l)
@@ -667,14 +672,17 @@ func TestC21(t *testing.T) {
 		// G2b the dedicated stop scenarios: stopping in the middle of a sync must not cost the connection
 		// (at the tip: the server has said AwaitReply, the next block comes a second later;
 		// with a block pipeline: Done leaves in the same segment as two RequestNext)
-		add(params{mode: ntn, limit: 2, script: "FFA", policy: "lazy", stopAt: 2, slow: -1, strict: true}, 0, 1, b0)
-		add(params{mode: ntc, limit: 2, script: "FFA", policy: "lazy", stopAt: 2, slow: -1, strict: true}, 0, 1, b0)
-		add(params{mode: ntcPipe, limit: 2, script: "FFF", policy: "lazy", stopAt: 1, slow: -1, strict: true}, 0, 1, b0)
+		add(params{mode: ntn, limit: 2, script: "FFA", policy: "lazy", stopAt: 2, slow: -1, strict: "stopclean"}, 0, 1, b0)
+		add(params{mode: ntc, limit: 2, script: "FFA", policy: "lazy", stopAt: 2, slow: -1, strict: "stopclean"}, 0, 1, b0)
+		add(params{mode: ntcPipe, limit: 2, script: "FFF", policy: "lazy", stopAt: 1, slow: -1, strict: "stopclean"}, 0, 1, b0)
+		// G2c Stop() racing with the sync loop (needs one schedule deviation)
+		add(params{mode: ntn, limit: 1, script: "F", policy: "eager", stopAt: 1, slow: -1, strict: "stoprace"}, 1, 1, b0)
+		add(params{mode: ntc, limit: 2, script: "FF", policy: "eager", stopAt: 1, slow: -1, strict: "stoprace"}, 1, 1, b0)
 		// G5 schedules: all schedules with <= 1 (thorough <= 2) deviations for short scripts
 		// (bound 1 must complete; bound 2 is attempted within the budget and reported)
 		sb, sbudget := 1, 60*time.Second
 		if thorough {
-			sb, sbudget = 2, 200*time.Second
+			sb, sbudget = 2, 120*time.Second
 		}
 		sched := func(p params, budget time.Duration) {
 			p.policy += "+sched" // distinct name: same body, explored under perturbed schedules
@@ -715,6 +723,40 @@ func TestC21(t *testing.T) {
 				}
 			}
 		}
-		return scs
+		// observation only (never a finding): PipelineLimit 100 exceeds the protocol's send queue
+		// (80); Stop() then waits for the server's next reply (see FINDINGS.md)
+		{
+			p := params{mode: ntn, limit: 100, script: "FBA", policy: "eager", stopAt: 3, slow: -1}
+			s := scenario(p)
+			s.Name = "info|" + s.Name
+			s.Check = func(r *rt.Result) []rt.Finding { return verdictFinding(r) }
+			s.Budget = b0
+			scs = append(scs, s)
+		}
+		// a worker process takes up to 24 consecutive scenarios: spread the expensive ones
+		// (bound >= 1) over the first batches, one per batch, so that they start first and run
+		// in parallel
+		var cheap, costly []e1lib.Scenario
+		for _, s := range scs {
+			if s.MaxB > 0 {
+				costly = append(costly, s)
+			} else {
+				cheap = append(cheap, s)
+			}
+		}
+		out := make([]e1lib.Scenario, 0, len(scs))
+		for len(cheap) > 0 || len(costly) > 0 {
+			if len(costly) > 0 {
+				out = append(out, costly[0])
+				costly = costly[1:]
+			}
+			n := 23
+			if n > len(cheap) {
+				n = len(cheap)
+			}
+			out = append(out, cheap[:n]...)
+			cheap = cheap[n:]
+		}
+		return out
 	})
 }
